@@ -87,6 +87,11 @@ func validateVariableUsage(def *ast.VariableDefinition, usage *ast.Variable, typ
 	if variableType == nil {
 		return newSecondaryError(def, "no type info for variable type")
 	} else if locationType == nil {
+		if _, ok := typeInfo.ScalarLiteralValues[usage]; ok {
+			// A variable inside a list or object literal for a (custom) scalar: there is no
+			// location type to check the variable's type against.
+			return nil
+		}
 		return newSecondaryError(usage, "no type info for location type")
 	}
 
